@@ -173,6 +173,11 @@ def run_family(pid, tier, runs, models, rule, assumptions, shards=16, merge=Fals
         else:
             k = ",".join(sorted(props))
             other[k] = other.get(k, 0) + 1
+            if os.environ.get("VERIF_DEBUG_REJ"):   # development aid: keep what another property's check would report
+                os.makedirs(os.environ["VERIF_DEBUG_REJ"], exist_ok=True)
+                with open(os.path.join(os.environ["VERIF_DEBUG_REJ"], "%s-foreign-%s-%d.json" % (pid, k, other[k])), "w") as f:
+                    json.dump(dict(props=sorted(props), rejected_event=r.event, reason=r.reason, events=r.scenario,
+                                   scenario=scen.get((os.path.dirname(r.file), r.scenario[0].get("sc")), {})), f)
     for k, c in sorted(other.items()):
         vlib.log("NOTE: %d rejected event(s) break %s, not %s (run ./check %s)" % (c, k, pid, k.split(",")[0]))
     vlib.log("[validate] %d events in %d files, %d TLC runs, %d rejected (%.1fs)" % (
